@@ -201,5 +201,10 @@ lg = jnp.concatenate(tuple(jnp.where(m, d.logits, -jnp.inf) for d, m in zip(self
                 s.ob("C16.5", "AbstractQPolicy.__call__" + tag, False, "epsilon-greedy selects between a sample and the mode", loc, key="explore-shape", detail=show(act or NONE, maxlen=200))
     if combos != {(True, True), (True, False), (False, True), (False, False)}:
         raise AnalysisError(f"AbstractQPolicy.__call__: expected four static cases, got {sorted(combos)}")
-    for r_, n_ in (("C16.1", 9), ("C16.2", 10), ("C16.3", 4), ("C16.4", 6), ("C16.5", 16)):
+    # ---------------------------------------------------------------- C16.6 multi-discrete: the sampled law is the product law that is scored
+    # "with a key it samples from the same distribution whose log-probability it reports": for multi-discrete actions the reported
+    # log-probability is the sum over independent components, so the sample must draw every component with its own key split.
+    from .C15 import check_product_law
+    check_product_law(s, "C16.6", methods=("sample", "log_prob", "mode"))
+    for r_, n_ in (("C16.1", 9), ("C16.2", 10), ("C16.3", 4), ("C16.4", 6), ("C16.5", 16), ("C16.6", 4)):
         s.floor(r_, n_)
